@@ -1,6 +1,6 @@
 (* C34 — Autocomplete never runs a line containing unsafe commands.
    Only theorem statements here; proofs live in Proof/TokUnsafe.v. *)
-From Murex Require Import Base.Outcome Base.Bytes Model.Tokenizer Check.C34 Proof.TokUnsafe.
+From Murex Require Import Base.Outcome Base.Bytes Model.Tokenizer Model.CmdLine Check.C34 Proof.TokUnsafe Proof.TokSound.
 Local Open Scope N_scope.
 
 (* Once the verdict Unsafe is set, no continuation of the line (any runes, any
@@ -46,7 +46,8 @@ Example C34_nonvacuous :
     = Some (false, [111;117;116], false, 10%Z) /\
   spec_ok {| c_src := [103;59;101;116;32;120;32;124;32;111;117;116;32]; c_unsafe := false;
              c_func := [111;117;116]; c_expect_func := false; c_last_flow := 9%Z; c_perr := false;
-             c_cmds := [[103]; [101;116]]; c_subshell := false; c_redirect := false |} = false.
+             c_cmds := [[103]; [101;116]]; c_subshell := false; c_redirect := false;
+             c_line := None; c_all_cmds := []; c_all_perr := false |} = false.
 Proof. vm_compute. repeat split. Qed.
 
 (* Known finding 1 (KNOWN_FINDINGS.txt, C34 id=1): the faithful model does NOT meet
@@ -57,7 +58,49 @@ Theorem C34_expression_statement_refuted :
 Proof.
   exists {| c_src := [97;32;61;32;53;32;124;32;111;117;116;32]; c_unsafe := false;
             c_func := [111;117;116]; c_expect_func := false; c_last_flow := 6%Z; c_perr := false;
-            c_cmds := [[101;120;112;114]]; c_subshell := false; c_redirect := false |}.
+            c_cmds := [[101;120;112;114]]; c_subshell := false; c_redirect := false;
+             c_line := None; c_all_cmds := []; c_all_perr := false |}.
   vm_compute. repeat split.
 Qed.
 Print Assumptions C34_expression_statement_refuted.
+
+(* ---- the global claim, for the command-line grammar of Model/CmdLine.v ----
+   line ::= stmt (sep stmt)*; stmt ::= name (' ' item)*; item ::= word | 'q text' | "q text"
+   | '{' [' '] sline [' '] '}' (one level); sep ::= [' '] (; | '|' | -> | && | '||') [' '].
+   [commands] (validated against the real ParseBlock tree on every generated grammar
+   case by Check.C34.grammar_agree) lists what the block parser executes. *)
+
+(* For EVERY well-formed line of the grammar (any number of statements, arguments,
+   block contents): if the tokenizer judges the typed line safe, every command that
+   the block parser would execute in the text before the last separator — the text
+   autocompletion runs — is on the safe list, including the commands inside blocks. *)
+Theorem C34_safe_verdict_sound_sublang : forall l,
+  line_ok l = true ->
+  tok_unsafe (render_line l) = false ->
+  Forall (fun n => safe_name n = true) (commands_of (prefix_to_last_flow l)).
+Proof. exact safe_verdict_sound_sublang. Qed.
+Print Assumptions C34_safe_verdict_sound_sublang.
+
+(* ... and on this grammar the verdict is exactly "one of the names that were read
+   and ended by a boundary is not on the list" *)
+Theorem C34_verdict_exact_sublang : forall l,
+  line_ok l = true -> tok_unsafe (render_line l) = existsb is_cmd_unsafe (looked_up l).
+Proof. exact verdict_line. Qed.
+Print Assumptions C34_verdict_exact_sublang.
+
+(* Non-vacuity: `if {out a; get} z | out ` is a well-formed line judged safe whose
+   prefix runs if, out, get; with `rm` in the block (`if {out a;rm} z | out `) the
+   line is judged unsafe. *)
+Example C34_sublang_nonvacuous :
+  let blk (n : list N) : item :=
+    IBlock false ({| ss_name := [111;117;116]; ss_args := [{| a_quote := QNone; a_text := [97] |}] |},
+                  [({| s_k := SSemi; s_before := false; s_after := false |}, {| ss_name := n; ss_args := [] |})]) in
+  let mk (n : list N) : line :=
+    ({| st_name := [105;102]; st_items := [blk n; IArg {| a_quote := QNone; a_text := [122] |}] |},
+     [({| s_k := SPipe; s_before := true; s_after := true |}, {| st_name := [111;117;116]; st_items := [] |})]) in
+  line_ok (mk [103;101;116]) = true /\
+  tok_unsafe (render_line (mk [103;101;116])) = false /\
+  commands_of (prefix_to_last_flow (mk [103;101;116])) = [[105;102]; [111;117;116]; [103;101;116]] /\
+  line_ok (mk [114;109]) = true /\
+  tok_unsafe (render_line (mk [114;109])) = true.
+Proof. vm_compute. repeat split. Qed.
